@@ -14,22 +14,21 @@ Proof. intros q limit file H G. exact (ts_report_exact q H limit file G). Qed.
 Print Assumptions C01_ts_report_exact.
 
 Theorem C01_rs_report_exact : forall q limit file,
-  q_rs_elseif_nests q = false -> q_rs_table_from_code q = false -> file_good Rs file = true ->
+  q_rs_elseif_nests q = false -> file_good Rs file = true ->
   report Rs q limit file = spec_report limit file.
-Proof. intros q limit file H1 H2 G. exact (rs_report_exact q H1 H2 limit file G). Qed.
+Proof. intros q limit file H1 G. exact (rs_report_exact q H1 limit file G). Qed.
 Print Assumptions C01_rs_report_exact.
 
 Theorem C01_py_report_exact : forall q limit file,
-  q_py_start_from_code q = false -> q_py_table_from_code q = false ->
+  q_py_start_from_code q = false ->
   1 <= limit -> file_good Py file = true ->
   report Py q limit file = spec_report limit file.
-Proof. intros q limit file H1 H2 L G. exact (py_report_exact q H1 H2 limit file L G). Qed.
+Proof. intros q limit file H1 L G. exact (py_report_exact q H1 limit file L G). Qed.
 Print Assumptions C01_py_report_exact.
 
 (* 2. The same skeleton gets the same depth and verdict in every language. *)
 Theorem C01_cross_language : forall q limit file,
-  q_py_start_from_code q = false -> q_py_table_from_code q = false -> q_ts_elseif_nests q = false ->
-  q_rs_elseif_nests q = false -> q_rs_table_from_code q = false ->
+  q_py_start_from_code q = false -> q_ts_elseif_nests q = false -> q_rs_elseif_nests q = false ->
   1 <= limit -> file_good Py file = true -> file_good Ts file = true -> file_good Rs file = true ->
   report Py q limit file = report Ts q limit file /\ report Ts q limit file = report Rs q limit file.
 Proof. exact cross_language. Qed.
@@ -51,13 +50,13 @@ Theorem C01_message_states_depth : forall l line col name d,
 Proof. exact message_states_depth. Qed.
 Print Assumptions C01_message_states_depth.
 
-(* 5. The faithful Python model (start depth and table as found in the source) is exact up to the
-      constant offset on every function free of `async for` / `match` (partial: the full statement is 1). *)
+(* 5. The faithful Python model (start depth as found in the source, whichever table variant) is exact up
+      to the constant offset on EVERY admissible function (partial: the full statement is 1). *)
 Theorem C01_py_actual_offset_partial : forall q f,
-  q_py_start_from_code q = true -> q_py_table_from_code q = true -> fn_good_actual f ->
+  q_py_start_from_code q = true -> fn_good Py f ->
   py_calc q (fn_body f) + (1 - py_start_depth) = doc_depth (fn_body f)
   \/ (maxl (map nest (fn_body f)) = 0 /\ py_calc q (fn_body f) = 0).
-Proof. intros q f H1 H2 G. exact (py_calc_actual_offset q H1 H2 f G). Qed.
+Proof. intros q f H1 G. exact (py_calc_actual_offset q H1 f G). Qed.
 Print Assumptions C01_py_actual_offset_partial.
 
 (* non-vacuity: an admissible file in all three languages with functions on both sides of a limit *)
